@@ -10,7 +10,9 @@ JCC = ["JZ", "JNZ", "JB", "JAE", "JL", "JGE", "JBE", "JA", "JS", "JNS", "JLE", "
 
 
 class AsmGen(object):
-    def __init__(self, rng, loops=True, calls=False):
+    def __init__(self, rng, loops=True, calls=False, split_cells=False):
+        # split_cells: cells that are loaded are never stored (and no push / pop): memory read values never change
+        self.split = split_cells
         self.rng = rng
         self.n = 0
         self.loops = loops
@@ -24,8 +26,12 @@ class AsmGen(object):
     def reg(self, avoid=()):
         return self.rng.choice([r for r in REGS if r not in avoid])
 
-    def mem(self, size="DWORD"):
+    def mem(self, size="DWORD", store=False):
         r = self.rng
+        if self.split:
+            if r.random() < 0.7:
+                return "%s PTR [ESP+0x%X]" % (size, r.choice([0x1C, 0x20] if store else [0x10, 0x14, 0x18]) + (r.choice([0, 1, 2, 3]) if size != "DWORD" else 0))
+            return "%s PTR [0x%X]" % (size, r.choice([0x2004, 0x2008] if store else [0x2000]) + (r.choice([0, 1, 2]) if size != "DWORD" else 0))
         if r.random() < 0.7:
             return "%s PTR [ESP+0x%X]" % (size, r.choice([0x10, 0x14, 0x18, 0x1C, 0x20]) + (r.choice([0, 1, 2, 3]) if size != "DWORD" else 0))
         return "%s PTR [0x%X]" % (size, r.choice([0x2000, 0x2004, 0x2008]) + (r.choice([0, 1, 2]) if size != "DWORD" else 0))
@@ -49,11 +55,11 @@ class AsmGen(object):
         if c < 0.84:
             return "MOV %s, %s" % (d, self.mem())
         if c < 0.92:
-            return "MOV %s, %s" % (self.mem(), r.choice([self.reg(), "0x%X" % r.choice([0, 5, 0x11223344])]))
+            return "MOV %s, %s" % (self.mem(store=True), r.choice([self.reg(), "0x%X" % r.choice([0, 5, 0x11223344])]))
         if c < 0.95 and d in REG8:
-            return "MOV %s, %s" % (self.mem("BYTE"), REG8[self.reg([x for x in REGS if x not in REG8])])
+            return "MOV %s, %s" % (self.mem("BYTE", store=True), REG8[self.reg([x for x in REGS if x not in REG8])])
         if c < 0.97 and d in REG16:
-            return "MOV %s, %s" % (self.mem("WORD"), REG16[d])
+            return "MOV %s, %s" % (self.mem("WORD", store=True), REG16[d])
         if d in REG8:
             return "MOVZX %s, %s" % (d, self.mem("BYTE"))
         return "XCHG %s, %s" % (d, self.reg([d]))
@@ -112,6 +118,8 @@ class AsmGen(object):
             self.segment(tuple(avoid) + ("ECX",))
             self.lines.append("    DEC ECX")
             self.lines.append("    JNZ %s" % top)
+        elif self.split:
+            self.straight(r.randrange(1, 3), avoid)
         else:
             a = self.reg(avoid)
             self.lines.append("    PUSH %s" % a)
